@@ -4,15 +4,17 @@ Copies a confirmed seeded change from /tmp/wt/out into /verif/seeded/<PROP>-<mK>
 import json, os, shutil, sys, glob
 prop, m, detected, cmd = sys.argv[1:5]
 note = sys.argv[5] if len(sys.argv) > 5 else ""
-src = f"/tmp/wt/out/{prop}/{m}"
-dst = f"/verif/seeded/{prop}-{m}"
+base = os.environ.get("SEEDBASE", "/tmp/wt")
+prefix = os.environ.get("SEEDPREFIX", "")
+src = f"{base}/out/{prop}/{m}"
+dst = f"/verif/seeded/{prop}-{prefix}{m}"
 os.makedirs(dst, exist_ok=True)
 shutil.copy(f"{src}/patch.diff", dst)
 for f in glob.glob(f"{src}/*_test.go"):
     shutil.copy(f, dst)
 meta = json.load(open(f"{src}/meta.json"))
 conf = {}
-cf = f"/tmp/wt/confirm/{prop}-{m}.json"
+cf = f"{base}/confirm/{prop}-{m}.json"
 if os.path.exists(cf):
     conf = json.load(open(cf))
 out = {
@@ -23,7 +25,7 @@ out = {
     "demo_run": meta.get("demo_run"),
     "produced_by": "independent sub-agent given only the property text and a scratch worktree",
     "confirmed_by_me": {
-        "how": "tools/confirm_seed.sh in the scratch worktree /tmp/wt/%s (pinned commit 6cbcc84): go build ./...; full suite of both modules with the change; demo with the change; demo without it" % prop,
+        "how": "tools/confirm_seed.sh in a scratch worktree of /repo (%s/%s): go build ./...; full suite of both modules with the change; demo with the change; demo without it" % (base, prop),
         **conf,
     },
     "detection": {"detected_by_check": detected, "command": cmd, "note": note},
